@@ -2,6 +2,7 @@ package main
 
 import (
 	"context"
+	"database/sql"
 	"fmt"
 	"regexp"
 	"strings"
@@ -60,6 +61,19 @@ func runC17Two(c *Ctx) {
 		var xid string
 		crash := safeCall(func() {
 			xid, _ = InGlobalTx(cid, func(ctx context.Context) error {
+				// every fourth case runs both statements on ONE pinned connection (db.Conn): database/sql does
+				// not reset the session between them
+				var db interface {
+					ExecContext(ctx context.Context, query string, args ...interface{}) (sql.Result, error)
+				} = xa
+				if i%4 == 2 {
+					conn, cerr := xa.Conn(ctx)
+					if cerr != nil {
+						panic(cerr)
+					}
+					defer conn.Close()
+					db = conn
+				}
 				for k := 0; k < 2; k++ {
 					var early sync.WaitGroup
 					if during && k == 1 {
@@ -79,7 +93,7 @@ func runC17Two(c *Ctx) {
 							}()
 						}
 					}
-					if pn := safeCall(func() { _, errs[k] = xa.ExecContext(ctx, "UPDATE "+table+" SET n = 7 WHERE id = ?", k+1) }); pn != "" {
+					if pn := safeCall(func() { _, errs[k] = db.ExecContext(ctx, "UPDATE "+table+" SET n = 7 WHERE id = ?", k+1) }); pn != "" {
 						panic(pn)
 					}
 					early.Wait()
